@@ -228,6 +228,12 @@ fn case(ctx: &mut Ctx, rng: &mut Rng, i: u64, sigpipe_blocked: bool, free_std: u
     if b.name == "fails-to-start" {
         // whatever the terminator returned (an error), nothing of the attempt may be left
         ctx.count("failed_launches_audited", 1);
+        if let Some(c) = &m.cert {
+            ctx.violation(&format!("C12/hang-after-failed-launch/{}", handle), "a command could not be started and the call did not return: it waits for a command that is itself waiting for a pipe end the call still holds", w(run::cert_json(c)));
+            ctx.distinct(&tag);
+            run::end_case();
+            return;
+        }
         for p in &pids {
             spawn::wait_dead(*p, 500);
         }
@@ -281,7 +287,59 @@ fn case(ctx: &mut Ctx, rng: &mut Rng, i: u64, sigpipe_blocked: bool, free_std: u
     run::end_case();
 }
 
+/// Calls that are documented to panic (input data without a piped stdin, a piped stdin without input data): the panic
+/// reaches the caller - the handle that unwinds with it must not wait for a child that is itself waiting for the
+/// handle's own end of its stdin - and the child is reaped like after any other drop.
+fn misuse_that_panics(ctx: &mut Ctx, _rng: &mut Rng, i: u64) {
+    run::begin_case();
+    let dir = ctx.scratch("c12p");
+    let rep = dir.join("rep");
+    let kind = i % 4;
+    let argv: Vec<std::ffi::OsString> = vec![ctx.vchild.clone().into_os_string(), "io".into(), "7".into(), (if kind < 3 { "R,w1:10:10,x0" } else { "w1:10:10,x0" }).into(), rep.into_os_string()];
+    let m = run::monitored(|| -> String {
+        match kind {
+            // stdin is a pipe and there is nothing to send
+            0 => format!("{:?}", Exec::cmd(&argv[0]).args(&argv[1..]).stdin(Redirection::Pipe).stdout(Redirection::Pipe).capture().map(|c| c.stdout.len()).map_err(|e| e.to_string())),
+            1 => {
+                let mut p = subprocess::Popen::create(&argv, subprocess::PopenConfig { stdin: Redirection::Pipe, stdout: Redirection::Pipe, ..Default::default() }).unwrap();
+                format!("{:?}", p.communicate_bytes(None).map(|r| r.0.map(|v| v.len())).map_err(|e| e.to_string()))
+            }
+            2 => {
+                let mut p = subprocess::Popen::create(&argv, subprocess::PopenConfig { stdin: Redirection::Pipe, ..Default::default() }).unwrap();
+                let mut c = p.communicate_start(None);
+                format!("{:?}", c.read().map(|r| r.0.map(|v| v.len())).map_err(|e| e.error.to_string()))
+            }
+            // input data and no pipe to send it through
+            _ => {
+                let mut p = subprocess::Popen::create(&argv, subprocess::PopenConfig { stdout: Redirection::Pipe, ..Default::default() }).unwrap();
+                format!("{:?}", p.communicate_bytes(Some(b"data")).map(|r| r.0.map(|v| v.len())).map_err(|e| e.to_string()))
+            }
+        }
+    });
+    let evs = m.events();
+    let pids = spawn::forked_pids(&evs);
+    ctx.count("documented_panics_provoked_while_a_handle_is_held", 1);
+    ctx.distinct(&format!("misuse|{}", kind));
+    let w = |extra: J| J::obj().set("misuse", J::s(["capture() with a piped stdin and no input", "communicate_bytes(None) with a piped stdin", "communicate_start(None) with a piped stdin", "communicate_bytes(Some) without a piped stdin"][kind as usize])).set("result", J::s(&format!("{:?} / panic: {:?}", m.result, m.panic))).set("detail", extra);
+    if let Some(c) = &m.cert {
+        ctx.violation(&format!("C12/drop-hang/misuse-{}", kind), "the handle that unwinds with a documented panic waits for a child that is waiting for the handle's own end of its stdin", w(run::cert_json(c)));
+    } else if m.hard_timeout {
+        ctx.inconclusive("misuse case did not end (no certificate)", w(J::Null));
+    } else {
+        for p in &pids {
+            spawn::wait_dead(*p, 300);
+        }
+        let left = spawn::surviving(&pids);
+        ctx.count("children_audited", pids.len() as i64);
+        if !left.is_empty() {
+            ctx.violation(&format!("C12/child-left/misuse-{}", kind), "after the call ended (by its documented panic or otherwise) a child it had started has not been reaped", w(J::s(&format!("{:?}", left))));
+        }
+    }
+    run::end_case();
+}
+
 pub fn run(ctx: &mut Ctx) {
+    ctx.family("misuse-that-panics", 24, misuse_that_panics);
     let total = (HANDLES.len() * BEHAVIOURS.len() * 3 * 2) as u64;
     ctx.max("tuples_enumerated", total as i64);
     let reps = ctx.n(3, 40);
